@@ -13,7 +13,7 @@ MANIFEST = {
             'with-replacement wrappers carve NCR_EXTRA off dst exactly when the encoding cannot encode everything, write the NCR at '
             'dst[total_written..], and decide InputEmpty/OutputFull after an NCR as documented (path summaries shared with C09). '
             'Equality of concatenated bytes over all histories is not decided. ' 
-            '(R-DIM) dimension inference over the index arithmetic of the slice-to-slice converters (no sum or difference mixes a source and a destination quantity; each buffer indexed with its own quantities; (read, written) = (source, destination) quantity; a path that advances the source position and returns has produced output; inside a loop that walks a buffer with a loop-carried position every index into that buffer depends arithmetically on such a position). (R-UTF8ASM) every place that assembles a value from the bytes of a UTF-8 sequence (OR/ADD of shifted byte terms) has the shifts 6(n-1)..0, a lead term equal to byte-C0/E0/F0 on the n-byte leads and continuation terms equal to byte-80 on 80-BF, compared as exact functions over the byte domains, loaded from consecutive positions where the loads resolve (here: handles::Utf8Source, 15 sites: what the encoders read from UTF-8 input is the scalar the UTF-16 path would see). (R-ASCIICOPY) the ASCII fast-path helpers of the handles (copy_ascii_from/to_check_space_*) advance the source and the destination position in step by what the ASCII kernel consumed, add only the units of the non-ASCII character on the source side and nothing on a path that stops, and report with Stop the source position itself and the destination position.',
+            '(R-DIM) dimension inference over the index arithmetic of the slice-to-slice converters (no sum or difference mixes a source and a destination quantity; each buffer indexed with its own quantities; (read, written) = (source, destination) quantity; a path that advances the source position and returns has produced output; inside a loop that walks a buffer with a loop-carried position every index into that buffer depends arithmetically on such a position). (R-UTF8ASM) every place that assembles a value from the bytes of a UTF-8 sequence (OR/ADD of shifted byte terms) has the shifts 6(n-1)..0, a lead term equal to byte-C0/E0/F0 on the n-byte leads and continuation terms equal to byte-80 on 80-BF, compared as exact functions over the byte domains, loaded from consecutive positions where the loads resolve (here: handles::Utf8Source, 15 sites: what the encoders read from UTF-8 input is the scalar the UTF-16 path would see). (R-ASCIICOPY) the ASCII fast-path helpers of the handles (copy_ascii_from/to_check_space_*) advance the source and the destination position in step by what the ASCII kernel consumed, add only the units of the non-ASCII character on the source side and nothing on a path that stops, and report with Stop the source position itself and the destination position. Also run here: R-UTF8ENC (the UTF-8 to UTF-8 encoder\'s cut is the boundary search from dst.len() and nothing else) and R-SURR over utf_8::convert_utf16_to_utf8*.',
     'note': 'Trusted: rustc MIR, mirx, rule library.',
     'technique': 'control-dependence taint rule + MIR dataflow + sibling-expansion comparison + bounded path summaries',
 }
@@ -23,6 +23,8 @@ CONFIGS = {'quick': ['default'], 'thorough': ['default', 'noalloc', 'simd', 'fas
 def run(rep, facts, tier):
     for c, f in facts.items():
         r_dim.run(rep, f, c)
+        import r_utf8enc
+        r_utf8enc.run(rep, f, c)     # the UTF-8 -> UTF-8 encoder's cut depends on dst.len() only through the boundary search (chunk/form independence)
         nb, nev = t_dst.run(rep, f, c, 'T-DST', lambda n: 'Encoder::' in n or n.startswith('handles::Utf8Source') or n.startswith('handles::Utf16Source'))
         rep.floor('T-DST', 'Unmappable constructions examined', nev, 55, c)
         nb, ng = r_account.run(rep, f, c, 'R-ACCOUNT', lambda n: 'Encoder::' in n)
@@ -30,7 +32,7 @@ def run(rep, facts, tier):
         r_iso.run(rep, f, c, 'R-ISO', '::encode_from_utf8_raw', '::encode_from_utf16_raw', 7)
         n = r_lookahead.run(rep, f, c, 'R-LOOKAHEAD', lambda nm: nm.startswith(('handles::Utf16Source', 'single_byte::SingleByteEncoder')))
         rep.floor('R-LOOKAHEAD', 'surrogate look-ahead sites', n, 4, c)
-        n = r_surr.run(rep, f, c, 'R-SURR', lambda nm: 'Encoder::' in nm or nm.startswith(('handles::Utf16Source', 'handles::Utf8Source')))
+        n = r_surr.run(rep, f, c, 'R-SURR', lambda nm: 'Encoder::' in nm or nm.startswith(('handles::Utf16Source', 'handles::Utf8Source', 'utf_8::convert_utf16_to_utf8')))
         rep.floor('R-SURR', 'surrogate tests on the encoder side', n, 10, c)
         n = r_inputempty.run(rep, f, c, 'R-INPUTEMPTY', lambda nm: 'Encoder::' in nm or nm.startswith(('handles::Utf16Source', 'handles::Utf8Source')))
         rep.floor('R-INPUTEMPTY', 'InputEmpty constructions (encoders)', n, 25, c)
